@@ -8,6 +8,7 @@ import (
 	"fmt"
 	"os"
 	"path/filepath"
+	"time"
 
 	"github.com/33cn/chain33/common/address"
 	"github.com/33cn/chain33/common/crypto"
@@ -65,6 +66,28 @@ func NewNodeCfgAt(dir string, o NodeCfg) *Node {
 		m.BlockChain.DbPath = filepath.Join("..", rel, "chain")
 		m.Store.DbPath = filepath.Join("..", rel, "store")
 	})
+}
+
+// WaitWalletRescan blocks until the wallet's background rescan of the imported accounts (started
+// by util/testnode on every start: OnImportPrivateKey -> go rescanReqTxDetailByAddr) has reached
+// the oldest transaction of the genesis account, i.e. is finished for it.  The rescan walks the
+// address index newest-first while the harness may be reorganising the chain; a transaction that
+// is disconnected between its two queries makes wallet.GetTxDetailByHashs dereference a nil
+// transaction and kills the process — so deliveries wait for the rescan (deadline: 120 s, after
+// which the harness goes on).  Returns false on deadline.
+func (n *Node) WaitWalletRescan() bool {
+	deadline := time.Now().Add(120 * time.Second)
+	for time.Now().Before(deadline) {
+		r, err := n.Mock.GetAPI().ExecWalletFunc("wallet", "WalletTransactionList",
+			&types.ReqWalletTransactionList{Count: 1, Direction: 1})
+		if err == nil {
+			if l, ok := r.(*types.WalletTxDetails); ok && len(l.TxDetails) > 0 && l.TxDetails[0].Height == 0 {
+				return true
+			}
+		}
+		time.Sleep(5 * time.Millisecond)
+	}
+	return false
 }
 
 // ExecKeepAll executes EVERY transaction of b on the producer's executor/store exactly as listed
